@@ -77,3 +77,33 @@ Theorem optimize_equiv :
                                   (run (@tfinal) (tstep St exec flag_set trainer_beaten cmp_var cmp_var_value case_matches code0) m' (jump code0 name) s)).
 Proof. exact C01Main.optimize_equiv. Qed.
 Print Assumptions optimize_equiv.
+
+(* ---------- C05 from the source text ---------- *)
+From Pory Require Import Parser Format ProgWf WorkLabels RenderFromSource C01Top.
+(* both settings of -optimize produce code with the same behaviour, for every script body of every accepted program; premises
+   as in Properties_C01.compiled_scripts_correct_from_source (conditions on the names the author chose) *)
+Theorem optimize_equiv_from_source :
+  forall (St : Type) (exec : cmd -> St -> stepres St) (flag_set trainer_beaten : text -> St -> bool)
+         (cmp_var cmp_var_value : text -> text -> St -> comparison) (case_matches : text -> text -> St -> bool)
+         hl hd hs autovars switches ee fc cli_font cli_maxlen (src : text) (p : program),
+  parse_program autovars switches ee (parse_format fc cli_font cli_maxlen ee) (lex hl hd hs src) = Parser.Ok p ->
+  forall body, In body (ProgWf.bodies_of (tops p)) ->
+  NoDup (WorkLabels.dlabs body) ->
+  forall (mp : option text) (tl : list text) (name : text) (glob : bool) (w : wst) (code0 code1 : list instr),
+  emit_graph body = Emitter.Ok w ->
+  emit_script mp tl name glob false body = Emitter.Ok code0 ->
+  emit_script mp tl name glob true body = Emitter.Ok code1 ->
+  RenderFromSource.names_okb (finals w) code0 = true -> RenderFromSource.names_okb (finals w) code1 = true ->
+  (Z.of_nat (List.length (finals w)) <= 10 ^ 40)%Z ->
+  (forall m s, exists m', res_le (run (@tfinal) (tstep St exec flag_set trainer_beaten cmp_var cmp_var_value case_matches code0) m (jump code0 name) s)
+                                 (run (@tfinal) (tstep St exec flag_set trainer_beaten cmp_var cmp_var_value case_matches code1) m' (jump code1 name) s)) /\
+  (forall m s, exists m', res_le (run (@tfinal) (tstep St exec flag_set trainer_beaten cmp_var cmp_var_value case_matches code1) m (jump code1 name) s)
+                                 (run (@tfinal) (tstep St exec flag_set trainer_beaten cmp_var cmp_var_value case_matches code0) m' (jump code0 name) s)).
+Proof. exact C01Top.optimize_equiv_from_source. Qed.
+Print Assumptions optimize_equiv_from_source.
+
+(* both orders render every chunk exactly once: the two outputs consist of the same blocks *)
+Theorem both_orders_enumerate_the_chunks :
+  forall b G, OrderPerm.dense G -> G <> nil -> Permutation.Permutation (order_of b G) (map cid G).
+Proof. exact OrderPerm.order_of_perm. Qed.
+Print Assumptions both_orders_enumerate_the_chunks.
